@@ -393,6 +393,57 @@ func genC04(c *Ctx) {
 				return "ok " + hx(r)
 			}))
 		}
+		// lists in which an element equals the sum of the elements before it (an addition that meets P + P), or its
+		// negation (the running sum passes through the identity), at every prefix length
+		if size >= 2 && size <= 8 {
+			for cut := 1; cut < size; cut++ {
+				pre, e0 := crypto.AggregateBLSSignatures(sigs[:cut])
+				if e0 != nil {
+					break
+				}
+				prefSum := new(big.Int)
+				for _, j := range perm[:cut] {
+					prefSum.Add(prefSum, ks[j])
+				}
+				for variant := 0; variant < 2; variant++ {
+					elem := pre
+					if variant == 1 {
+						if new(big.Int).Mod(prefSum, blsR).Sign() == 0 {
+							continue
+						}
+						elem, _ = skFromInt(new(big.Int).Sub(blsR, new(big.Int).Mod(prefSum, blsR))).Sign(msg, h)
+					}
+					list := append(append(append([]crypto.Signature{}, sigs[:cut]...), elem), sigs[cut:]...)
+					tot := new(big.Int).Set(sum)
+					if variant == 0 {
+						tot.Add(tot, prefSum)
+					} else {
+						tot.Sub(tot, prefSum)
+					}
+					tot.Mod(tot, blsR)
+					c.Case(fmt.Sprintf("agg-sig-partial-sum-element/%d", variant), fmt.Sprintf("sig.expect 0x%s %s", tot.Text(16), hx(hp)), guard(func() string {
+						r, err := crypto.AggregateBLSSignatures(list)
+						if err != nil {
+							return "err " + errClass(err)
+						}
+						return "ok " + hx(r)
+					}))
+				}
+			}
+			// the same for public keys: the partial sum comes out of an aggregation (projective coordinates inside)
+			for cut := 1; cut < size; cut++ {
+				pre, e0 := crypto.AggregateBLSPublicKeys(ppks[:cut])
+				if e0 != nil {
+					break
+				}
+				list := append(append(append([]crypto.PublicKey{}, ppks[:cut]...), pre), ppks[cut:]...)
+				kl := append([]*big.Int{}, ks...)
+				for _, j := range perm[:cut] {
+					kl = append(kl, ks[j])
+				}
+				c.Case("agg-pk-partial-sum-element", "agg.pk "+scalarsLine(kl), guard(func() string { return pkEnc(crypto.AggregateBLSPublicKeys(list)) }))
+			}
+		}
 		// a malformed signature inside the list
 		if it%5 == 0 || size > 16 {
 			bad := append([]crypto.Signature{}, sigs...)
